@@ -7,10 +7,12 @@ import (
 	"bytes"
 	"encoding/json"
 	"fmt"
+	"math/big"
 	"os"
 	"sort"
 	"strings"
 	"testing"
+	"time"
 
 	agov "github.com/Oneledger/protocol/action/governance"
 	"github.com/Oneledger/protocol/data/balance"
@@ -199,6 +201,81 @@ func (n *node) runBlock(b *sim.Block, crashes []string, a *sim.Replica, onCrash 
 	}
 }
 
+// forecast re-computes, from block times only (two fixed defects lived in these regimes: replays/C08/fixed-*.json),
+// what data/rewards/calculator.go forecasts when block h (time tH) is the first of a reward cycle:
+// "" (nothing special or not a cycle start), "below-cycle" (0 < forecast blocks < cycle length for
+// the chosen year: the cycle will overdraw the year), "zero" (every open year got a forecast of 0
+// blocks: spurious burn-out).
+func forecast(w *hist.World, h int64, tH time.Time) string {
+	cyc := w.P.RewardCycle
+	if cyc <= 0 || (h-1)%cyc != 0 {
+		return ""
+	}
+	t1 := tH
+	if h > 1 && len(w.C.Blocks) > 0 {
+		t1 = w.C.Blocks[0].Time
+	}
+	secsPerCycle := w.P.RewardEstSecs
+	tEnd := t1
+	if h > cyc {
+		bi := h - cyc - 1 // index of block height h-cyc
+		if bi < 0 || int(bi) >= len(w.C.Blocks) {
+			return ""
+		}
+		tEnd = tH
+		secsPerCycle = int64(tEnd.Sub(w.C.Blocks[bi].Time).Seconds())
+	}
+	if secsPerCycle <= 0 {
+		return ""
+	}
+	openYearSkipped := false
+	tStart := t1.UTC()
+	for range w.P.RewardYearShares {
+		tClose := tStart.AddDate(1, 0, 0).UTC()
+		tStart = tClose
+		secsToClose := int64(tClose.Sub(tEnd.UTC()).Seconds())
+		if secsToClose < w.P.RewardCloseWin {
+			continue
+		}
+		n := int64(float64(secsToClose*cyc) / float64(secsPerCycle))
+		if n == 0 {
+			openYearSkipped = true
+			continue
+		}
+		if n < cyc {
+			return "below-cycle"
+		}
+		return ""
+	}
+	if openYearSkipped {
+		return "zero"
+	}
+	return ""
+}
+
+// overdrawn reports whether a reward year has distributed more than its share (committed state of replica A).
+func overdrawn(w *hist.World) bool {
+	var y struct {
+		Years []struct {
+			Distributed string
+		}
+	}
+	if json.Unmarshal(w.Get("rwcum_ydist"), &y) != nil {
+		return false
+	}
+	for i, yr := range y.Years {
+		if i >= len(w.P.RewardYearShares) {
+			break
+		}
+		d, ok1 := new(big.Int).SetString(yr.Distributed, 10)
+		sh, ok2 := new(big.Int).SetString(w.P.RewardYearShares[i], 10)
+		if ok1 && ok2 && d.Cmp(sh) > 0 {
+			return true
+		}
+	}
+	return false
+}
+
 // heightClasses describes a height for the evidence (reward cycle position, fork, maturities, option changes).
 func heightClasses(w *hist.World, h int64, govChanged bool) []string {
 	var c []string
@@ -263,6 +340,7 @@ func execute(h *run.H, tr *hist.Trace, draw func(w *hist.World) ([]hist.Step, []
 	}
 	optionChanged := false
 	cfgProps := map[string]bool{}
+	yearOverdrawn, spuriousBurnout := false, false
 	pos := 0
 	for {
 		var steps []hist.Step
@@ -299,6 +377,13 @@ func execute(h *run.H, tr *hist.Trace, draw func(w *hist.World) ([]hist.Step, []
 			}
 		}
 		b := w.C.MakeBlock(*blk.Spec)
+		switch forecast(w, b.Height, b.Time) {
+		case "zero":
+			spuriousBurnout = true
+			st.feats["reward-forecast:zero-for-open-year"]++
+		case "below-cycle":
+			st.feats["reward-forecast:below-cycle-length"]++
+		}
 		ref := a.RunBlock(b)
 		if a.Panicked {
 			return &outcome{"node-panic", "uninterrupted:" + a.PanicCall, fmt.Sprintf("the uninterrupted node panicked in %s at height %d (kinds %v) and shut itself down", a.PanicCall, b.Height, blk.Kinds)}, st
@@ -358,9 +443,15 @@ func execute(h *run.H, tr *hist.Trace, draw func(w *hist.World) ([]hist.Step, []
 		st.blocks++
 		debugf("h=%d apphash A=%x B=%x crashes=%v\n", b.Height, ref.AppHash, res.AppHash, crashes)
 		if d := sim.CompareBlockRes(ref, res); d != "" {
-			diff := sim.DiffDumps(a.DumpMap(), nb.r.DumpMap())
+			da, db := a.DumpMap(), nb.r.DumpMap()
+			diff := sim.DiffDumps(da, db)
 			if len(diff) > 8 {
 				diff = diff[:8]
+			}
+			for i, k := range diff {
+				if i < 4 {
+					debugf("   key %q\n     A=%.300s\n     B=%.300s\n", k, da[k], db[k])
+				}
 			}
 			class := "no-crash-in-this-block"
 			if len(crashes) > 0 {
@@ -368,10 +459,25 @@ func execute(h *run.H, tr *hist.Trace, draw func(w *hist.World) ([]hist.Step, []
 			} else if nb.gen > 0 {
 				class = "later-block"
 			}
+			rewardKeys := len(diff) > 0
+			for _, k := range diff {
+				if !strings.HasPrefix(k, "rw") && !strings.HasPrefix(k, "delegRwz") {
+					rewardKeys = false
+				}
+			}
+			if rewardKeys && (yearOverdrawn || overdrawn(w)) {
+				class = "reward-cache-overdrawn-year"
+			} else if rewardKeys && spuriousBurnout {
+				class = "reward-burnout-flag-sticky"
+			}
 			return &outcome{"transcript-after-restart", class, fmt.Sprintf("uninterrupted node vs node restarted %d times so far (crash points in this block %v): %s; block kinds %v; height classes %v; first differing keys %q", nb.gen, crashes, d, blk.Kinds, hc, diff)}, st
 		}
 		if draw != nil {
 			w.Observe(txs, ref)
+		}
+		if !yearOverdrawn && overdrawn(w) {
+			yearOverdrawn = true
+			st.feats["reach:reward-year-overdrawn"]++
 		}
 		// a finalised config-update proposal = governance options changed
 		for _, p := range w.Props {
@@ -458,9 +564,12 @@ func TestC08(t *testing.T) {
 		role := hist.Roles(p, 2)[u.N(2, "role")]
 		tr := &hist.Trace{Params: p, Roles: []sim.Role{role}, Profile: prof}
 		nblocks := u.Range(4, maxBlocks, "nblocks")
-		slowClock := u.N(6, "slowclock") == 0 // months between blocks: year-close and burn-out boundaries fall inside the history
+		slowClock := u.N(4, "slowclock") == 0 || os.Getenv("VERIF_C08_SLOW") != "" // months between blocks: year-close and burn-out boundaries fall inside the history
+		standstill := u.N(2, "standstillmode") == 0
 		scripted := u.N(3, "cfgscript") == 0
-		if slowClock {
+		if slowClock && standstill {
+			tr.Profile += "+standstill"
+		} else if slowClock {
 			tr.Profile += "+slowclock"
 		}
 		if scripted {
@@ -469,24 +578,14 @@ func TestC08(t *testing.T) {
 		// crash schedule: 1-3 crashes on block ordinals (a repeated ordinal = second crash while that block is replayed)
 		ncr := u.Range(1, 3, "ncrashes")
 		crashAt := map[int]int{}
+		var chosen []int
 		for i := 0; i < ncr; i++ {
 			o := u.Range(1, nblocks, "crashblock")
 			if i > 0 && u.N(4, "sameblock") == 0 {
-				for k := range crashAt {
-					o = k
-					break
-				}
+				o = chosen[u.N(len(chosen), "whichblock")]
 			}
+			chosen = append(chosen, o)
 			crashAt[o]++
-		}
-		// map iteration above only picks "some already chosen block"; make it deterministic
-		{
-			var ks []int
-			for k := range crashAt {
-				ks = append(ks, k)
-			}
-			sort.Ints(ks)
-			_ = ks
 		}
 		var g *hist.Gen
 		blocks := 0
@@ -514,7 +613,13 @@ func TestC08(t *testing.T) {
 				}
 			}
 			spec := g.DrawEnv(txs)
-			if slowClock {
+			if slowClock && standstill {
+				// a chain that runs at normal speed and stood still for months once or twice
+				spec.GapSecs = []int64{1, 5, 60}[u.N(3, "fastgap")]
+				if u.N(6, "standstill") == 0 {
+					spec.GapSecs = int64([]int{100, 150, 200, 250, 300, 330}[u.N(6, "standstilldays")]) * 86400
+				}
+			} else if slowClock {
 				spec.GapSecs = []int64{1, 5, 86400, 864000, 2592000, 7776000, 7776000}[u.N(7, "slowgap")]
 			}
 			var steps []hist.Step
